@@ -281,7 +281,7 @@ def run(ctx, rec):
         for label, d in colon_shared_designs():
             rec.count("colon-shared.designs")
             judge(rec, label, d, True, sample=False)
-    n = 700 if ctx.quick else 3000
+    n = 700 if ctx.quick else 9000
     if ctx.nshards > 1:
         n = n // 2
     for k in range(n):
